@@ -15,10 +15,14 @@ func buildPipeline(g *scheduler.ExecutionGraph, stages []*stageDefinition, cfg *
 		var stagePipeline *scheduler.ExecutionGraph
 
 		if def.Task != "" {
-			stageTask = cfg.Tasks[def.Task]
-			if stageTask == nil {
+			t := cfg.Tasks[def.Task]
+			if t == nil {
 				return nil, fmt.Errorf("stage build failed: no such task %s", def.Task)
 			}
+			// every stage gets its own copy of the task: its dir, env and variables
+			// overrides must not reach other stages, other pipelines or direct runs
+			taskCopy := *t
+			stageTask = &taskCopy
 		} else {
 			stagePipeline = cfg.Pipelines[def.Pipeline]
 			if stagePipeline == nil {
